@@ -815,9 +815,14 @@ def run(ctx):
         'other body (C13_wrappers_checked); the hand alias model C13/Model.v is an exact refinement validated with np.shares_memory; '
         'numba kernels are analysed from their Python source',
         'cross-call aliasing: persistent attributes are classified fresh / possibly caller-owned by a greatest fixpoint in the '
-        'translator, re-checked in Coq (assertions after every store, guarded-attribute table); the induction over call '
-        'histories is argued, not mechanised; attribute names are identified across classes (coarser, sound); setattr/__dict__ '
-        'are not modelled',
+        'translator and re-checked in Coq (assertions after every store, C13_persist_ok); the induction over call histories is '
+        'mechanised (C13_history_*).  Modelling: a history is a sequence of body executions sharing the persistent names; '
+        'attribute stores done by a callee are not replayed in the caller IR (the callee is itself a checked body under the same '
+        'fresh/caller-owned discipline); attribute names are identified across classes; setattr/__dict__ are not modelled',
+        'LIBRARY TABLE: `library_table` in coq/gen/GenWrites.v lists how every NumPy/SciPy/stdlib callable is treated (views, '
+        'constructors that keep references to their array arguments such as csr_matrix((data, indices, indptr)) / '
+        'dia_matrix((data, offsets)) / spdiags, copying constructors such as diags, in-place functions and methods incl. those '
+        'that write through to the arrays an object was built from: setdiag, sort_indices, in-place arithmetic)',
         'object-dtype arrays, ndarray subclasses, non-native byte order and memory-overlapping caller arguments are outside the model',
     ]
     ctx.gate()
